@@ -15,7 +15,7 @@ func zzCtx(name string, n int) []byte {
 	return b
 }
 
-//zz: prop=C16 tier=quick backend=bv timeout=300
+//zz: prop=C16 also=C11 tier=quick backend=bv timeout=300
 func ZZ_C16_schnorr_complete() {
 	G := zzGrp{}
 	k := zzSclVar("k")
@@ -23,8 +23,12 @@ func ZZ_C16_schnorr_complete() {
 	kG := G.NewElement().Mul(g, k)
 	uid := zzCtx("uid", zzLen("nuid", 0, zzT(2, 5)))
 	oi := zzCtx("oi", zzLen("noi", 0, zzT(2, 5)))
+	k0, g0, kG0 := k.Copy(), g.Copy(), kG.Copy()
 	p := Prove(G, g, kG, k, uid, oi, nil)
 	zzAssert(Verify(G, g, kG, p, uid, oi), "honest Schnorr proof verifies")
+	zzAssert(zzAnd(k.IsEqual(k0), g.IsEqual(g0), kG.IsEqual(kG0)), "proving and verifying leave the witness, the base and the statement element unchanged")
+	p2 := Prove(G, g, kG, k, uid, oi, nil)
+	zzAssert(Verify(G, g, kG, p2, uid, oi), "a second honest proof from the same key object verifies")
 }
 
 //zz: prop=C16 tier=quick backend=bv timeout=600
